@@ -339,10 +339,24 @@ def _evaluate(node, proto, first, leak):
     if k == 'pdur':
         its, tot, _ = _evaluate(node['kid'], proto, first, leak)
         d = fr(node['dur'])
-        if tot >= d:
-            # the event whose end reaches d is the last one; an event that
-            # would start at or after d is not played
-            kept = [x for x in its if x.t < d]
+        # Pfindur's tolerance (default 0.001): an event whose end comes
+        # within the tolerance below d counts as reaching d (its end is
+        # rounded up to a multiple of the tolerance before the comparison)
+        tol = fr(node.get('tol', F(1, 1000)))
+        up = lambda t: -((-t) // tol) * tol
+        # an item that starts at t > 0 starts where an earlier event of the
+        # stream (an item or a silent filler) ended: the event whose end
+        # reaches d is the last one, nothing that would start there or later
+        # is played
+        kept, reached = [], False
+        for x in its:
+            if x.t > 0 and up(x.t) >= d:
+                reached = True
+                break
+            kept.append(x)
+        if not reached and up(tot) >= d:
+            reached = True
+        if reached:
             if trunc and kept:
                 last = kept[-1]
                 if last.restdelta is not None and delta_is_int(last.ev) \
